@@ -101,9 +101,6 @@ def bind_kwarg_agreement(rep, rule):
 def run(rep):
     repo = rep.repo
     app, route = repo.mod(APP), repo.mod(ROUTE)
-    dv = DispatchView(repo)
-    cfg, f = dv.cfg, dv.fi
-    rv = dv.route_var
     rep.decide('R07.a dominance conditions of the redirect / strict / rewrite branches; R07.b Location escaping (taint); '
                'R07.c slash-mode inheritance plumbing')
     rep.decline('idempotence of normalize_path and one-hop as value statements; werkzeug.redirect behaviour')
@@ -112,278 +109,286 @@ def run(rep):
     rep.rule('R07.b', 'taint: request.path-derived text reaches redirect() only through a URL-quoting call')
     rep.rule('R07.c', 'slash_mode selection and kwarg-name agreement of bind keywords')
 
-    # ---- R07.a -----------------------------------------------------------
-    if len(dv.redirect_calls) != 1:
-        raise AnalysisError('Application.dispatch: expected exactly one redirect(...) call, found %d' % len(dv.redirect_calls))
-    rc = dv.redirect_calls[0]
-    rst = stmt_of(app, rc)
-    cs = dv.conds(rst)
-    npc = [c for c in walk_body(f.node) if isinstance(c, ast.Call) and call_name(c) == 'normalize_path']
-    if len(npc) != 1:
-        raise AnalysisError('dispatch: expected exactly one normalize_path(...) call, found %d' % len(npc))
-    npc = npc[0]
-    nps = stmt_of(app, npc)
-    if not (isinstance(nps, ast.Assign) and nps.value is npc and len(nps.targets) == 1 and isinstance(nps.targets[0], ast.Name)):
-        raise AnalysisError('dispatch: the result of normalize_path(...) is not bound to a local')
-    npv = nps.targets[0].id
-    np_path = argn(npc, 'path', 0)
+    def redirect_rules():
+        dv = DispatchView(repo)
+        cfg, f = dv.cfg, dv.fi
+        rv = dv.route_var
+        # ---- R07.a -----------------------------------------------------------
+        if len(dv.redirect_calls) != 1:
+            raise AnalysisError('Application.dispatch: expected exactly one redirect(...) call, found %d' % len(dv.redirect_calls))
+        rc = dv.redirect_calls[0]
+        rst = stmt_of(app, rc)
+        cs = dv.conds(rst)
+        npc = [c for c in walk_body(f.node) if isinstance(c, ast.Call) and call_name(c) == 'normalize_path']
+        if len(npc) != 1:
+            raise AnalysisError('dispatch: expected exactly one normalize_path(...) call, found %d' % len(npc))
+        npc = npc[0]
+        nps = stmt_of(app, npc)
+        if not (isinstance(nps, ast.Assign) and nps.value is npc and len(nps.targets) == 1 and isinstance(nps.targets[0], ast.Name)):
+            raise AnalysisError('dispatch: the result of normalize_path(...) is not bound to a local')
+        npv = nps.targets[0].id
+        np_path = argn(npc, 'path', 0)
 
-    def is_noncanonical(t):
-        """polarity under which comparison ``t`` says: normalize_path(request path, ..) differs from the request path"""
-        if not (isinstance(t, ast.Compare) and len(t.ops) == 1 and isinstance(t.ops[0], (ast.Eq, ast.NotEq))):
+        def is_noncanonical(t):
+            """polarity under which comparison ``t`` says: normalize_path(request path, ..) differs from the request path"""
+            if not (isinstance(t, ast.Compare) and len(t.ops) == 1 and isinstance(t.ops[0], (ast.Eq, ast.NotEq))):
+                return None
+            a_, b_ = t.left, t.comparators[0]
+            for x, y in ((a_, b_), (b_, a_)):
+                if isinstance(x, ast.Call) and norm(x) == norm(npc) and np_path is not None and norm(y) == norm(np_path):
+                    return isinstance(t.ops[0], ast.NotEq)
             return None
-        a_, b_ = t.left, t.comparators[0]
-        for x, y in ((a_, b_), (b_, a_)):
-            if isinstance(x, ast.Call) and norm(x) == norm(npc) and np_path is not None and norm(y) == norm(np_path):
-                return isinstance(t.ops[0], ast.NotEq)
-        return None
 
-    def is_mode(t, const):
-        """polarity under which comparison ``t`` says: the route's slash mode is ``const``"""
-        if not (isinstance(t, ast.Compare) and len(t.ops) == 1 and isinstance(t.ops[0], (ast.Eq, ast.NotEq))):
+        def is_mode(t, const):
+            """polarity under which comparison ``t`` says: the route's slash mode is ``const``"""
+            if not (isinstance(t, ast.Compare) and len(t.ops) == 1 and isinstance(t.ops[0], (ast.Eq, ast.NotEq))):
+                return None
+            a_, b_ = t.left, t.comparators[0]
+            for x, y in ((a_, b_), (b_, a_)):
+                if norm(x) == '%s.slash_mode' % rv and norm(y) == const:
+                    return isinstance(t.ops[0], ast.Eq)
             return None
-        a_, b_ = t.left, t.comparators[0]
-        for x, y in ((a_, b_), (b_, a_)):
-            if norm(x) == '%s.slash_mode' % rv and norm(y) == const:
-                return isinstance(t.ops[0], ast.Eq)
-        return None
 
-    def holds(cs_, pred):
-        return any(pred(t) is not None and pred(t) is p for t, p in cs_)
-    checks = [
-        ('pattern matched', dv.matched_conds(cs)),
-        ('method admitted', dv.method_ok_conds(cs)),
-        ('route is a branch', has_cond(cs, lambda t: norm(t) == '%s.is_branch' % rv, True)),
-        ('path is not canonical', holds(cs, is_noncanonical)),
-        ('redirect mode', holds(cs, lambda t: is_mode(t, 'S_REDIRECT'))),
-    ]
-    for label, ok in checks:
-        rep.check('R07.a', fkey(f, 'redirect requires: ' + label), ok,
-                  'redirect(...) is dominated by "%s"' % label if ok else
-                  'a slash redirect can be issued although "%s" does not hold (conditions: %s)' % (label, '; '.join(cond_texts(cs))), app, rst)
-    ok = isinstance(rst, ast.Return) and rst.value is rc
-    rep.check('R07.a', fkey(f, 'redirect returned'), ok, 'the redirect response is returned immediately' if ok else
-              'the redirect response is not returned directly', app, rst)
-    np_branch = argn(npc, 'is_branch', 1)
-    ok = np_path is not None and dv.is_request_attr(np_path, 'path') and norm(np_path) == norm(dv.match_call.args[0]) and np_branch is not None and \
-        (norm(np_branch) == '%s.is_branch' % rv or
-         (isinstance(np_branch, ast.Constant) and np_branch.value is True and has_cond(dv.conds(nps), lambda t: norm(t) == '%s.is_branch' % rv, True)))
-    rep.check('R07.a', fkey(f, 'canonical form'), ok, 'canonical path = normalize_path(request path, route.is_branch)' if ok else
-              'normalize_path is not applied to (url_path, route.is_branch)', app, nps)
-    # strict
-    bnodes = [n.id for n in cfg.nodes if n.kind == 'branch' and cfg.reachable(n.id)]
+        def holds(cs_, pred):
+            return any(pred(t) is not None and pred(t) is p for t, p in cs_)
+        checks = [
+            ('pattern matched', dv.matched_conds(cs)),
+            ('method admitted', dv.method_ok_conds(cs)),
+            ('route is a branch', has_cond(cs, lambda t: norm(t) == '%s.is_branch' % rv, True)),
+            ('path is not canonical', holds(cs, is_noncanonical)),
+            ('redirect mode', holds(cs, lambda t: is_mode(t, 'S_REDIRECT'))),
+        ]
+        for label, ok in checks:
+            rep.check('R07.a', fkey(f, 'redirect requires: ' + label), ok,
+                      'redirect(...) is dominated by "%s"' % label if ok else
+                      'a slash redirect can be issued although "%s" does not hold (conditions: %s)' % (label, '; '.join(cond_texts(cs))), app, rst)
+        ok = isinstance(rst, ast.Return) and rst.value is rc
+        rep.check('R07.a', fkey(f, 'redirect returned'), ok, 'the redirect response is returned immediately' if ok else
+                  'the redirect response is not returned directly', app, rst)
+        np_branch = argn(npc, 'is_branch', 1)
+        ok = np_path is not None and dv.is_request_attr(np_path, 'path') and norm(np_path) == norm(dv.match_call.args[0]) and np_branch is not None and \
+            (norm(np_branch) == '%s.is_branch' % rv or
+             (isinstance(np_branch, ast.Constant) and np_branch.value is True and has_cond(dv.conds(nps), lambda t: norm(t) == '%s.is_branch' % rv, True)))
+        rep.check('R07.a', fkey(f, 'canonical form'), ok, 'canonical path = normalize_path(request path, route.is_branch)' if ok else
+                  'normalize_path is not applied to (url_path, route.is_branch)', app, nps)
+        # strict
+        bnodes = [n.id for n in cfg.nodes if n.kind == 'branch' and cfg.reachable(n.id)]
 
-    def says(cs_, pred, want=True):
-        return any(pred(t) is not None and (pred(t) is p) is want for t, p in cs_)
-    is_strict = lambda t: is_mode(t, 'S_STRICT')
-    is_branch_t = lambda t: True if norm(t) == '%s.is_branch' % rv else None
-    # entry points of the region "the mode is strict and the path is not canonical"
-    region = [nid for nid in bnodes if says(dv.branch_conds(nid, full=True), is_strict) and says(dv.branch_conds(nid, full=True), is_noncanonical)]
-    strict_t = [n for n in region if not any(n in cfg.reach([m], avoid=dv.head, include_src=False) for m in region if m != n)]
-    addx = dv.calls_stmt('add_exception', dv.ds_var)
-    addx_nf = []
-    for s in addx:
-        a = s.value.args[0]
-        srcs = [x.value for x in stmts_of(f.node) if isinstance(x, ast.Assign) and norm(x.targets[0]) == norm(a)]
-        if any(isinstance(v, ast.Call) and norm(v.func).endswith('not_found_type') for v in srcs) or \
-                (isinstance(a, ast.Call) and norm(a.func).endswith('not_found_type')):
-            addx_nf.append(s)
-    exec_nodes = cfg.nodes_of(dv.exec_st)
-    ok = bool(strict_t) and bool(addx_nf) and cfg.must_pass(cfg.nodes_of_all(addx_nf), strict_t, dv.head + [cfg.exit], normal_only=True) and \
-        not (set(exec_nodes) & cfg.reach(strict_t, avoid=dv.head))
-    rep.check('R07.a', fkey(f, 'strict mode'), ok,
-              'strict mode: a non-canonical path records a not-found error and the route is not executed' if ok else
-              'strict mode does not reliably skip the route with a recorded not-found error', app, addx_nf[0] if addx_nf else dv.loop)
-    # rewrite: some way leads from the loop header to execute without redirecting, without recording the strict-mode error and
-    # without ever taking a branch that says "the path is canonical" or "the route is a leaf"
-    blocked = [nid for nid in bnodes if says(dv.branch_conds(nid), is_noncanonical, False) or says(dv.branch_conds(nid), is_branch_t, False)]
-    avoid = set(dv.head) | set(blocked) | set(cfg.nodes_of(rst)) | set(cfg.nodes_of_all(addx_nf))
-    ok = bool(blocked) and bool(set(exec_nodes) & cfg.reach(dv.iter_nodes, avoid=avoid, normal_only=True))
-    rep.check('R07.a', fkey(f, 'rewrite mode'), ok, 'in neither mode (rewrite) the route is executed directly' if ok else
-              'rewrite mode does not fall through to execute', app, dv.exec_st)
-    # canonical paths never redirect: the != test is the only way in (already dominated) ; leaf routes never redirect (is_branch)
-    rep.floor('R07.a', 9)
+        def says(cs_, pred, want=True):
+            return any(pred(t) is not None and (pred(t) is p) is want for t, p in cs_)
+        is_strict = lambda t: is_mode(t, 'S_STRICT')
+        is_branch_t = lambda t: True if norm(t) == '%s.is_branch' % rv else None
+        # entry points of the region "the mode is strict and the path is not canonical"
+        region = [nid for nid in bnodes if says(dv.branch_conds(nid, full=True), is_strict) and says(dv.branch_conds(nid, full=True), is_noncanonical)]
+        strict_t = [n for n in region if not any(n in cfg.reach([m], avoid=dv.head, include_src=False) for m in region if m != n)]
+        addx = dv.calls_stmt('add_exception', dv.ds_var)
+        addx_nf = []
+        for s in addx:
+            a = s.value.args[0]
+            srcs = [x.value for x in stmts_of(f.node) if isinstance(x, ast.Assign) and norm(x.targets[0]) == norm(a)]
+            if any(isinstance(v, ast.Call) and norm(v.func).endswith('not_found_type') for v in srcs) or \
+                    (isinstance(a, ast.Call) and norm(a.func).endswith('not_found_type')):
+                addx_nf.append(s)
+        exec_nodes = cfg.nodes_of(dv.exec_st)
+        ok = bool(strict_t) and bool(addx_nf) and cfg.must_pass(cfg.nodes_of_all(addx_nf), strict_t, dv.head + [cfg.exit], normal_only=True) and \
+            not (set(exec_nodes) & cfg.reach(strict_t, avoid=dv.head))
+        rep.check('R07.a', fkey(f, 'strict mode'), ok,
+                  'strict mode: a non-canonical path records a not-found error and the route is not executed' if ok else
+                  'strict mode does not reliably skip the route with a recorded not-found error', app, addx_nf[0] if addx_nf else dv.loop)
+        # rewrite: some way leads from the loop header to execute without redirecting, without recording the strict-mode error and
+        # without ever taking a branch that says "the path is canonical" or "the route is a leaf"
+        blocked = [nid for nid in bnodes if says(dv.branch_conds(nid), is_noncanonical, False) or says(dv.branch_conds(nid), is_branch_t, False)]
+        avoid = set(dv.head) | set(blocked) | set(cfg.nodes_of(rst)) | set(cfg.nodes_of_all(addx_nf))
+        ok = bool(blocked) and bool(set(exec_nodes) & cfg.reach(dv.iter_nodes, avoid=avoid, normal_only=True))
+        rep.check('R07.a', fkey(f, 'rewrite mode'), ok, 'in neither mode (rewrite) the route is executed directly' if ok else
+                  'rewrite mode does not fall through to execute', app, dv.exec_st)
+        # canonical paths never redirect: the != test is the only way in (already dominated) ; leaf routes never redirect (is_branch)
+        rep.floor('R07.a', 9)
 
-    # ---- R07.b -----------------------------------------------------------
-    arg = rc.args[0]
+        # ---- R07.b -----------------------------------------------------------
+        arg = rc.args[0]
 
-    _PCT, _BRACE = re.compile(r'%(?:s|r|d|%)'), re.compile(r'\{\}|\{\{|\}\}')
+        _PCT, _BRACE = re.compile(r'%(?:s|r|d|%)'), re.compile(r'\{\}|\{\{|\}\}')
 
-    def _interleave(fmt, directive, args, depth):
-        """template text and arguments of ``fmt % args`` / ``fmt.format(*args)`` in the order they appear in the result"""
-        fallback = [fmt]
-        for x in args:
-            fallback.extend(pieces(x, depth + 1))
-        if not (isinstance(fmt, ast.Constant) and isinstance(fmt.value, str)):
-            return fallback
-        rest = directive.sub('', fmt.value)
-        if any(ch in rest for ch in ('%' if directive is _PCT else '{}')):
-            return fallback      # a directive this model does not split (width, mapping key, conversion, ...)
-        out, pos, i = [], 0, 0
-        for m in directive.finditer(fmt.value):
-            lit = fmt.value[pos:m.start()]
-            if m.group(0) in ('%%', '{{', '}}'):
-                lit += m.group(0)[0]
-            if lit:
-                out.append(ast.copy_location(ast.Constant(value=lit), fmt))
-            pos = m.end()
-            if m.group(0) in ('%%', '{{', '}}'):
-                continue
-            if i >= len(args):
+        def _interleave(fmt, directive, args, depth):
+            """template text and arguments of ``fmt % args`` / ``fmt.format(*args)`` in the order they appear in the result"""
+            fallback = [fmt]
+            for x in args:
+                fallback.extend(pieces(x, depth + 1))
+            if not (isinstance(fmt, ast.Constant) and isinstance(fmt.value, str)):
                 return fallback
-            out.extend(pieces(args[i], depth + 1))
-            i += 1
-        if fmt.value[pos:]:
-            out.append(ast.copy_location(ast.Constant(value=fmt.value[pos:]), fmt))
-        if i != len(args):
-            return fallback
-        return out
+            rest = directive.sub('', fmt.value)
+            if any(ch in rest for ch in ('%' if directive is _PCT else '{}')):
+                return fallback      # a directive this model does not split (width, mapping key, conversion, ...)
+            out, pos, i = [], 0, 0
+            for m in directive.finditer(fmt.value):
+                lit = fmt.value[pos:m.start()]
+                if m.group(0) in ('%%', '{{', '}}'):
+                    lit += m.group(0)[0]
+                if lit:
+                    out.append(ast.copy_location(ast.Constant(value=lit), fmt))
+                pos = m.end()
+                if m.group(0) in ('%%', '{{', '}}'):
+                    continue
+                if i >= len(args):
+                    return fallback
+                out.extend(pieces(args[i], depth + 1))
+                i += 1
+            if fmt.value[pos:]:
+                out.append(ast.copy_location(ast.Constant(value=fmt.value[pos:]), fmt))
+            if i != len(args):
+                return fallback
+            return out
 
-    def pieces(e, depth=0):
-        """Flatten a string-building expression into its concatenated pieces."""
-        if depth > 8:
-            return [e]
-        if isinstance(e, ast.Name):
-            srcs = [s.value for s in stmts_of(f.node) if isinstance(s, ast.Assign) and norm(s.targets[0]) == e.id]
-            if len(srcs) == 1 and e.id not in taint_roots:
-                return pieces(srcs[0], depth + 1)
-            return [e]
-        if isinstance(e, ast.Call) and isinstance(e.func, ast.Attribute) and e.func.attr == 'join' and len(e.args) == 1:
-            inner = pieces(e.args[0], depth + 1)
-            return inner
-        if isinstance(e, (ast.List, ast.Tuple)):
-            out = []
-            for x in e.elts:
-                out.extend(pieces(x, depth + 1))
-            return out
-        if isinstance(e, ast.BinOp) and isinstance(e.op, ast.Add):
-            return pieces(e.left, depth + 1) + pieces(e.right, depth + 1)
-        if isinstance(e, ast.BinOp) and isinstance(e.op, ast.Mod):
-            r = e.right.elts if isinstance(e.right, ast.Tuple) else [e.right]
-            return _interleave(e.left, _PCT, r, depth)
-        if isinstance(e, ast.JoinedStr):
-            out = []
-            for v in e.values:
-                out.extend(pieces(v.value if isinstance(v, ast.FormattedValue) else v, depth + 1))
-            return out
-        if isinstance(e, ast.Call) and isinstance(e.func, ast.Attribute) and e.func.attr == 'format':
-            if e.keywords or any(isinstance(x, ast.Starred) for x in e.args):
-                out = [e.func.value]
-                for x in list(e.args) + [k.value for k in e.keywords]:
+        def pieces(e, depth=0):
+            """Flatten a string-building expression into its concatenated pieces."""
+            if depth > 8:
+                return [e]
+            if isinstance(e, ast.Name):
+                srcs = [s.value for s in stmts_of(f.node) if isinstance(s, ast.Assign) and norm(s.targets[0]) == e.id]
+                if len(srcs) == 1 and e.id not in taint_roots:
+                    return pieces(srcs[0], depth + 1)
+                return [e]
+            if isinstance(e, ast.Call) and isinstance(e.func, ast.Attribute) and e.func.attr == 'join' and len(e.args) == 1:
+                inner = pieces(e.args[0], depth + 1)
+                return inner
+            if isinstance(e, (ast.List, ast.Tuple)):
+                out = []
+                for x in e.elts:
                     out.extend(pieces(x, depth + 1))
                 return out
-            return _interleave(e.func.value, _BRACE, list(e.args), depth)
-        return [e]
-    # locals carrying (decoded) request-path text: bound to request.path or to the normalised path, or computed from such a
-    # local by anything but a URL-quoting call
-    req_path = '%s.path' % dv.request
-    taint_roots, tainted_names = {npv}, {npv}
-    from ..astutil import assigned_value
-    all_locals = set(n.id for n in walk_body(f.node) if isinstance(n, ast.Name) and isinstance(n.ctx, ast.Store))
-    for name in all_locals:
-        for st_, val_, idx_ in assigned_value(f.node, name):
-            v_ = val_.elts[idx_] if isinstance(idx_, int) and isinstance(val_, (ast.Tuple, ast.List)) and len(val_.elts) > idx_ else val_
-            if isinstance(v_, ast.expr) and norm(v_) == req_path:
-                taint_roots.add(name)
-                tainted_names.add(name)
-    grew = True
-    while grew:
-        grew = False
-        for s_ in stmts_of(f.node):
-            if isinstance(s_, ast.Assign) and len(s_.targets) == 1 and isinstance(s_.targets[0], ast.Name) and s_.targets[0].id not in tainted_names \
-                    and not (isinstance(s_.value, ast.Call) and call_tail(s_.value) in QUOTERS) \
-                    and (req_path in norm(s_.value) or names_loaded(s_.value) & tainted_names):
-                tainted_names.add(s_.targets[0].id)
-                grew = True
-    ps = pieces(arg)
+            if isinstance(e, ast.BinOp) and isinstance(e.op, ast.Add):
+                return pieces(e.left, depth + 1) + pieces(e.right, depth + 1)
+            if isinstance(e, ast.BinOp) and isinstance(e.op, ast.Mod):
+                r = e.right.elts if isinstance(e.right, ast.Tuple) else [e.right]
+                return _interleave(e.left, _PCT, r, depth)
+            if isinstance(e, ast.JoinedStr):
+                out = []
+                for v in e.values:
+                    out.extend(pieces(v.value if isinstance(v, ast.FormattedValue) else v, depth + 1))
+                return out
+            if isinstance(e, ast.Call) and isinstance(e.func, ast.Attribute) and e.func.attr == 'format':
+                if e.keywords or any(isinstance(x, ast.Starred) for x in e.args):
+                    out = [e.func.value]
+                    for x in list(e.args) + [k.value for k in e.keywords]:
+                        out.extend(pieces(x, depth + 1))
+                    return out
+                return _interleave(e.func.value, _BRACE, list(e.args), depth)
+            return [e]
+        # locals carrying (decoded) request-path text: bound to request.path or to the normalised path, or computed from such a
+        # local by anything but a URL-quoting call
+        req_path = '%s.path' % dv.request
+        taint_roots, tainted_names = {npv}, {npv}
+        from ..astutil import assigned_value
+        all_locals = set(n.id for n in walk_body(f.node) if isinstance(n, ast.Name) and isinstance(n.ctx, ast.Store))
+        for name in all_locals:
+            for st_, val_, idx_ in assigned_value(f.node, name):
+                v_ = val_.elts[idx_] if isinstance(idx_, int) and isinstance(val_, (ast.Tuple, ast.List)) and len(val_.elts) > idx_ else val_
+                if isinstance(v_, ast.expr) and norm(v_) == req_path:
+                    taint_roots.add(name)
+                    tainted_names.add(name)
+        grew = True
+        while grew:
+            grew = False
+            for s_ in stmts_of(f.node):
+                if isinstance(s_, ast.Assign) and len(s_.targets) == 1 and isinstance(s_.targets[0], ast.Name) and s_.targets[0].id not in tainted_names \
+                        and not (isinstance(s_.value, ast.Call) and call_tail(s_.value) in QUOTERS) \
+                        and (req_path in norm(s_.value) or names_loaded(s_.value) & tainted_names):
+                    tainted_names.add(s_.targets[0].id)
+                    grew = True
+        ps = pieces(arg)
 
-    def is_path_tainted(e):
-        names = names_loaded(e)
-        return bool(names & tainted_names) or req_path in norm(e)
-    path_pieces = [p for p in ps if is_path_tainted(p)]
-    # names derived from request.query_string (fixpoint over the assignments of dispatch)
-    qvars = set()
-    grew = True
-    while grew:
-        grew = False
-        for s_ in stmts_of(f.node):
-            if isinstance(s_, ast.Assign) and len(s_.targets) == 1 and isinstance(s_.targets[0], ast.Name) and \
-                    s_.targets[0].id not in qvars and ('query_string' in norm(s_.value) or names_loaded(s_.value) & qvars):
-                qvars.add(s_.targets[0].id)
-                grew = True
+        def is_path_tainted(e):
+            names = names_loaded(e)
+            return bool(names & tainted_names) or req_path in norm(e)
+        path_pieces = [p for p in ps if is_path_tainted(p)]
+        # names derived from request.query_string (fixpoint over the assignments of dispatch)
+        qvars = set()
+        grew = True
+        while grew:
+            grew = False
+            for s_ in stmts_of(f.node):
+                if isinstance(s_, ast.Assign) and len(s_.targets) == 1 and isinstance(s_.targets[0], ast.Name) and \
+                        s_.targets[0].id not in qvars and ('query_string' in norm(s_.value) or names_loaded(s_.value) & qvars):
+                    qvars.add(s_.targets[0].id)
+                    grew = True
 
-    def is_query(e):
-        return 'query_string' in norm(e) or bool(names_loaded(e) & qvars)
-    query_pieces = [p for p in ps if is_query(p) and not is_path_tainted(p)]
-    root_pieces = [p for p in ps if 'url_root' in norm(p) or 'host_url' in norm(p)]
-    ok = len(path_pieces) >= 1
-    rep.check('R07.b', fkey(f, 'Location has the canonical path'), ok and any(npv in names_loaded(p) for p in path_pieces),
-              'the Location is built from the canonical path' if ok else 'the Location does not contain the canonical path', app, rst)
-    for p in path_pieces:
-        good = isinstance(p, ast.Call) and call_tail(p) in QUOTERS and p.args and is_path_tainted(p.args[0])
-        why = ''
-        if good:
-            safe = kwarg(p, 'safe') or (p.args[3] if len(p.args) > 3 and call_tail(p) == 'url_quote' else None) or \
-                (p.args[1] if len(p.args) > 1 and call_tail(p) == 'quote' else None)
-            if safe is not None:
-                sv = repo.try_fold(safe, app)
-                if not isinstance(sv, str) or any(ch in sv for ch in '?#%'):
-                    good = False
-                    why = ' (its safe set %r lets ?, # or %% through)' % (sv,)
-        rep.check('R07.b', fkey(f, 'path piece ' + norm(p)), good,
-                  'decoded path is URL-quoted before entering the Location: %s' % short(p) if good else
-                  'the decoded request path reaches redirect() without URL-quoting%s: a segment containing ?, # or %% makes the '
-                  'Location name a different resource' % why, app, rst)
-    def query_form_ok(e, selfname=None, depth=0):
-        """request.query_string, possibly decoded, possibly percent-encoded by a quoter whose safe set keeps the
-        query's own structure ('%', '&', '=', '+') -- i.e. an already encoded query is not encoded twice."""
-        if depth > 4:
+        def is_query(e):
+            return 'query_string' in norm(e) or bool(names_loaded(e) & qvars)
+        query_pieces = [p for p in ps if is_query(p) and not is_path_tainted(p)]
+        root_pieces = [p for p in ps if 'url_root' in norm(p) or 'host_url' in norm(p)]
+        ok = len(path_pieces) >= 1
+        rep.check('R07.b', fkey(f, 'Location has the canonical path'), ok and any(npv in names_loaded(p) for p in path_pieces),
+                  'the Location is built from the canonical path' if ok else 'the Location does not contain the canonical path', app, rst)
+        for p in path_pieces:
+            good = isinstance(p, ast.Call) and call_tail(p) in QUOTERS and p.args and is_path_tainted(p.args[0])
+            why = ''
+            if good:
+                safe = kwarg(p, 'safe') or (p.args[3] if len(p.args) > 3 and call_tail(p) == 'url_quote' else None) or \
+                    (p.args[1] if len(p.args) > 1 and call_tail(p) == 'quote' else None)
+                if safe is not None:
+                    sv = repo.try_fold(safe, app)
+                    if not isinstance(sv, str) or any(ch in sv for ch in '?#%'):
+                        good = False
+                        why = ' (its safe set %r lets ?, # or %% through)' % (sv,)
+            rep.check('R07.b', fkey(f, 'path piece ' + norm(p)), good,
+                      'decoded path is URL-quoted before entering the Location: %s' % short(p) if good else
+                      'the decoded request path reaches redirect() without URL-quoting%s: a segment containing ?, # or %% makes the '
+                      'Location name a different resource' % why, app, rst)
+        def query_form_ok(e, selfname=None, depth=0):
+            """request.query_string, possibly decoded, possibly percent-encoded by a quoter whose safe set keeps the
+            query's own structure ('%', '&', '=', '+') -- i.e. an already encoded query is not encoded twice."""
+            if depth > 4:
+                return False
+            if norm(e) == 'request.query_string' or (selfname and isinstance(e, ast.Name) and e.id == selfname):
+                return True
+            if isinstance(e, ast.Call) and isinstance(e.func, ast.Attribute) and e.func.attr == 'decode':
+                return query_form_ok(e.func.value, selfname, depth + 1)
+            if isinstance(e, ast.Call) and call_tail(e) in QUOTERS and e.args:
+                safe = kwarg(e, 'safe') or (e.args[3] if len(e.args) > 3 and call_tail(e) == 'url_quote' else None) or \
+                    (e.args[1] if len(e.args) > 1 and call_tail(e) == 'quote' else None)
+                sv = repo.try_fold(safe, app) if safe is not None else None
+                return isinstance(sv, str) and all(ch in sv for ch in '%&=+') and query_form_ok(e.args[0], selfname, depth + 1)
             return False
-        if norm(e) == 'request.query_string' or (selfname and isinstance(e, ast.Name) and e.id == selfname):
-            return True
-        if isinstance(e, ast.Call) and isinstance(e.func, ast.Attribute) and e.func.attr == 'decode':
-            return query_form_ok(e.func.value, selfname, depth + 1)
-        if isinstance(e, ast.Call) and call_tail(e) in QUOTERS and e.args:
-            safe = kwarg(e, 'safe') or (e.args[3] if len(e.args) > 3 and call_tail(e) == 'url_quote' else None) or \
-                (e.args[1] if len(e.args) > 1 and call_tail(e) == 'quote' else None)
-            sv = repo.try_fold(safe, app) if safe is not None else None
-            return isinstance(sv, str) and all(ch in sv for ch in '%&=+') and query_form_ok(e.args[0], selfname, depth + 1)
-        return False
-    ok = len(query_pieces) == 1
-    if ok:
-        q = query_pieces[0]
-        if isinstance(q, ast.Name):
-            asg = [s_.value for s_ in stmts_of(f.node) if isinstance(s_, ast.Assign) and norm(s_.targets[0]) == q.id]
-            ok = bool(asg) and all(query_form_ok(v, q.id) for v in asg) and any(query_form_ok(v) for v in asg)
-        else:
-            ok = query_form_ok(q)
-    rep.check('R07.b', fkey(f, 'query piece'), ok, 'the query string is passed through unchanged (not re-quoted)' if ok else
-              'the query string is missing from the Location, altered or re-quoted: %s' % [norm(q) for q in query_pieces], app, rst)
-    ok = len(root_pieces) == 1 and norm(root_pieces[0]).startswith('request.url_root')
-    rep.check('R07.b', fkey(f, 'prefix piece'), ok, 'the prefix is request.url_root (scheme, host, script root)' if ok else
-              'the Location prefix is not request.url_root', app, rst)
-    # order: root, path, '?', query
-    order = [('root' if p in root_pieces else 'path' if p in path_pieces else 'query' if p in query_pieces else
-              ('?' if isinstance(p, ast.Constant) and p.value == '?' else 'other')) for p in ps]
-    order = [o for o in order if o != 'other']
-    ok = order == ['root', 'path', '?', 'query']
-    rep.check('R07.b', fkey(f, 'piece order'), ok, 'Location = root + quoted path + "?" + query' if ok else 'Location pieces are ordered %s' % order, app, rst)
-    # werkzeug redirect is not a sanitiser: fact check on the pinned source
-    wu = repo.mod('werkzeug.utils')
-    rd = wu.func('redirect')
-    fact = any(isinstance(c, ast.Call) and call_tail(c) == 'iri_to_uri' and isinstance(kwarg(c, 'safe_conversion'), ast.Constant)
-               for c in walk_body(rd.node))
-    rep.check('R07.b', 'werkzeug.utils::redirect', fact, 'model: redirect() applies iri_to_uri(safe_conversion=True) only (no quoting of ?, #, %)' if fact else
-              'werkzeug redirect() model out of date', wu, rd.node)
-    rep.floor('R07.b', 6)
+        ok = len(query_pieces) == 1
+        if ok:
+            q = query_pieces[0]
+            if isinstance(q, ast.Name):
+                asg = [s_.value for s_ in stmts_of(f.node) if isinstance(s_, ast.Assign) and norm(s_.targets[0]) == q.id]
+                ok = bool(asg) and all(query_form_ok(v, q.id) for v in asg) and any(query_form_ok(v) for v in asg)
+            else:
+                ok = query_form_ok(q)
+        rep.check('R07.b', fkey(f, 'query piece'), ok, 'the query string is passed through unchanged (not re-quoted)' if ok else
+                  'the query string is missing from the Location, altered or re-quoted: %s' % [norm(q) for q in query_pieces], app, rst)
+        ok = len(root_pieces) == 1 and norm(root_pieces[0]).startswith('request.url_root')
+        rep.check('R07.b', fkey(f, 'prefix piece'), ok, 'the prefix is request.url_root (scheme, host, script root)' if ok else
+                  'the Location prefix is not request.url_root', app, rst)
+        # order: root, path, '?', query
+        order = [('root' if p in root_pieces else 'path' if p in path_pieces else 'query' if p in query_pieces else
+                  ('?' if isinstance(p, ast.Constant) and p.value == '?' else 'other')) for p in ps]
+        order = [o for o in order if o != 'other']
+        ok = order == ['root', 'path', '?', 'query']
+        rep.check('R07.b', fkey(f, 'piece order'), ok, 'Location = root + quoted path + "?" + query' if ok else 'Location pieces are ordered %s' % order, app, rst)
+        # werkzeug redirect is not a sanitiser: fact check on the pinned source
+        wu = repo.mod('werkzeug.utils')
+        rd = wu.func('redirect')
+        fact = any(isinstance(c, ast.Call) and call_tail(c) == 'iri_to_uri' and isinstance(kwarg(c, 'safe_conversion'), ast.Constant)
+                   for c in walk_body(rd.node))
+        rep.check('R07.b', 'werkzeug.utils::redirect', fact, 'model: redirect() applies iri_to_uri(safe_conversion=True) only (no quoting of ?, #, %)' if fact else
+                  'werkzeug redirect() model out of date', wu, rd.node)
+        rep.floor('R07.b', 6)
 
-    # ---- R07.c -----------------------------------------------------------
-    check_slash_plumbing(rep, 'R07.c')
-    rep.floor('R07.c', 12)
 
-    # ---- R07.d -----------------------------------------------------------
+    def plumbing_rules():
+        check_slash_plumbing(rep, 'R07.c')
+        rep.floor('R07.c', 12)
+
+    def canonical_form_rules():
+        check_normalize_path(rep, 'R07.d')
     rep.rule('R07.d', 'shape of normalize_path: drop empty segments, one leading slash, one trailing slash iff branch')
-    check_normalize_path(rep, 'R07.d')
+    # each group is analysed on its own: a construct one group cannot follow does not hide the verdicts of the others
+    for group in (redirect_rules, plumbing_rules, canonical_form_rules):
+        rep.guard(group)
 
 
 class _NP(object):
